@@ -393,11 +393,59 @@ class C05(Check):
                           f"the created stoichiometry is `{st_txt[:160]}`, not repack(substrates labelled by the pattern / products by the mapped pattern)",
                           witness="A__10 -> B with the identity map: the product isotopomer does not carry the substrate's label")
         args_txt = norm(kw.get("args")) if "args" in kw else "?"
-        ok_args = args_txt in (
-            "[(dict(zip(BS, NS, strict=True)) | dict(zip(BP, NP, strict=True))).get(_c0, _c0) for _c0 in args]",
-            "[dict(zip(it.chain(BS, BP), it.chain(NS, NP), strict=True)).get(_c0, _c0) for _c0 in args]",
-            "[(dict(zip(BS, NS)) | dict(zip(BP, NP))).get(_c0, _c0) for _c0 in args]",
-        )
+
+        def seq_parts(e):
+            """A + B / it.chain(A, B) / [*A, *B] / list(..) -> [A, B] as texts."""
+            if isinstance(e, ast.BinOp) and isinstance(e.op, ast.Add):
+                a_, b_ = seq_parts(e.left), seq_parts(e.right)
+                return None if a_ is None or b_ is None else a_ + b_
+            if isinstance(e, ast.Call) and norm(e.func).split(".")[-1] == "chain" and not e.keywords:
+                out_ = []
+                for a_ in e.args:
+                    p_ = seq_parts(a_)
+                    if p_ is None:
+                        return None
+                    out_ += p_
+                return out_
+            if isinstance(e, ast.Call) and norm(e.func) in ("list", "tuple") and len(e.args) == 1:
+                return seq_parts(e.args[0])
+            if isinstance(e, (ast.List, ast.Tuple)) and e.elts and all(isinstance(x, ast.Starred) for x in e.elts):
+                out_ = []
+                for x in e.elts:
+                    p_ = seq_parts(x.value)
+                    if p_ is None:
+                        return None
+                    out_ += p_
+                return out_
+            return [norm(e)] if isinstance(e, ast.Name) else None
+
+        def pair_segments(e):
+            """A renaming table as the ordered list of (old names, new names) segments it is zipped from (later segments win)."""
+            if isinstance(e, ast.BinOp) and isinstance(e.op, ast.BitOr):
+                a_, b_ = pair_segments(e.left), pair_segments(e.right)
+                return None if a_ is None or b_ is None else a_ + b_
+            if isinstance(e, ast.Dict) and e.keys and all(k_ is None for k_ in e.keys):
+                out_ = []
+                for v_ in e.values:
+                    p_ = pair_segments(v_)
+                    if p_ is None:
+                        return None
+                    out_ += p_
+                return out_
+            if isinstance(e, ast.Call) and norm(e.func) == "dict" and len(e.args) == 1 and isinstance(e.args[0], ast.Call) and norm(e.args[0].func) == "zip" and len(e.args[0].args) == 2:
+                ks, vs = seq_parts(e.args[0].args[0]), seq_parts(e.args[0].args[1])
+                if ks is None or vs is None or len(ks) != len(vs):
+                    return None
+                return list(zip(ks, vs))
+            return None
+
+        ok_args = False
+        if "args" in kw and isinstance(kw["args"], (ast.ListComp, ast.GeneratorExp)) and len(kw["args"].generators) == 1 and not kw["args"].generators[0].ifs \
+                and norm(kw["args"].generators[0].iter) == "args":
+            v_ = norm(kw["args"].generators[0].target)
+            elt = kw["args"].elt
+            if isinstance(elt, ast.Call) and isinstance(elt.func, ast.Attribute) and elt.func.attr == "get" and [norm(a_) for a_ in elt.args] == [v_, v_]:
+                ok_args = pair_segments(elt.func.value) == [("BS", "NS"), ("BP", "NP")]
         if ok_args and norm(kw.get("fn")) == "function":
             self.holds("L10", MOD, q, "rate-arguments-renamed", anchor, "the rate law's arguments are renamed to the isotopomers taking part (substrates and products), others kept")
         else:
@@ -485,7 +533,10 @@ class C05(Check):
         """Initial amounts, from the path summaries of one iteration of the loop over the base model's initial conditions."""
         bm = mod.func("LabelMapper.build_model")
         q = "LabelMapper.build_model"
-        lp = [l for l in ast.walk(bm) if isinstance(l, ast.For) and norm(l.iter) == "self.model.get_initial_conditions().items()"
+        from ..core import expand_locals, single_defs
+
+        defs8 = {k_: v_ for k_, v_ in single_defs(bm, anywhere=True).items() if isinstance(v_, ast.Call) and norm(v_) == "self.model.get_initial_conditions()"}
+        lp = [l for l in ast.walk(bm) if isinstance(l, ast.For) and norm(expand_locals(l.iter, defs8)) == "self.model.get_initial_conditions().items()"
               and isinstance(l.target, ast.Tuple) and len(l.target.elts) == 2]
         if not lp:
             self.undecided_ob("L8", MOD, q, "initial-amounts", bm, "loop over the base model's initial conditions not found")
